@@ -663,6 +663,20 @@ impl G<'_> {
                 let i = self.rng.below(maxuser.min(8) as u64) as usize;
                 out.push(self.user(i));
             }
+            11 if maxuser > 1 && self.rng.chance(1, 5) => {
+                // the idiom that makes the current meaning of a name global: \global\let\a=\a
+                let defined: Vec<usize> = (0..maxuser.min(8)).filter(|i| self.guess[*i] != Guess::Undef).collect();
+                if !defined.is_empty() {
+                    let i = *self.rng.pick(&defined);
+                    out.push(self.cs("global"));
+                    out.push(self.cs("let"));
+                    out.push(self.user(i));
+                    if self.rng.chance(1, 2) {
+                        out.push(T::Ch(b'='));
+                    }
+                    out.push(self.user(i));
+                }
+            }
             11 if maxuser > 1 => {
                 // \let target = source with source below target (no recursion through aliases)
                 let ti = 1 + self.rng.below((maxuser.min(8) - 1) as u64) as usize;
